@@ -13,6 +13,7 @@ let () =
   | _ :: "resp" :: _ -> L_resp.run ()
   | _ :: "eval" :: _ -> L_eval.run ()
   | _ :: "evallex" :: _ -> L_eval.run_lexical ()
+  | _ :: "typing" :: _ -> L_eval.run_typing ()
   | _ ->
       prerr_endline "usage: oalmodel <layer>";
       exit 2
